@@ -42,6 +42,22 @@ Theorem C09_mark_goal_correct :
     (forall j, binary_search (goals (mark_goal i g)) j = true <-> j = i \/ binary_search (goals g) j = true) /\
     starts (mark_goal i g) = starts g.
 Proof. exact mark_goal_correct. Qed.
+(* ... lifted to EVERY sequence of markGoalState calls: the vector stays sorted, the lookup answers true for exactly
+   the marked indices (and those marked before), and the start marks are untouched *)
+Theorem C09_mark_goals_correct_for_every_sequence :
+  forall js g, sorted_nth (goals g) ->
+    let g' := fold_left (fun h i => mark_goal i h) js g in
+    sorted_nth (goals g') /\
+    (forall j, binary_search (goals g') j = true <-> In j js \/ binary_search (goals g) j = true) /\
+    starts g' = starts g.
+Proof.
+  intros js. induction js as [|i t IH]; intros g Hs; cbn [fold_left].
+  - split; [exact Hs|]. split; [|reflexivity]. intros j. split; [auto | intros [[]|H]; exact H].
+  - destruct (C09_mark_goal_correct i g Hs) as (S1 & M1 & St1).
+    destruct (IH (mark_goal i g) S1) as (S2 & M2 & St2).
+    split; [exact S2|]. split; [|rewrite St2; exact St1].
+    intros j. rewrite (M2 j), (M1 j). cbn [In]. intuition (subst; auto).
+Qed.
 
 (* a planner-data graph (vertices with tags and states, edges with weights, start / goal marks held as sorted index
    vectors) stored and loaded back: same vertices in index order, same edges, same start marks; a goal mark comes back
@@ -91,6 +107,7 @@ Print Assumptions C09_load_rejects_wrong_marker.
 Print Assumptions C09_load_rejects_other_signature.
 Print Assumptions C09_binary_search_exact_on_sorted.
 Print Assumptions C09_mark_goal_correct.
+Print Assumptions C09_mark_goals_correct_for_every_sequence.
 Print Assumptions C09_load_store_planner_data.
 Print Assumptions C09_load_store_planner_data_disjoint_marks.
 Print Assumptions C09_planner_data_rejects_every_strict_prefix.
